@@ -134,22 +134,25 @@ Members(s, M, x, h, md) ==
                         dv == [t |-> "str", v |-> IF f.ann.oneofValue # "" THEN f.ann.oneofValue ELSE f.name]
                     IN {<<o.discriminator, dv>>}
                        \cup (IF o.flatten /\ v.t = "m" /\ HasMsg(s, v.type)
-                             THEN Members(s, MsgByName(s, v.type), v, md.nh, md)
+                             THEN Members(s, MsgByName(s, v.type), v, md.fh, md)
+                             ELSE IF v.t = "m" THEN {<<f.json, EncMsgVal(s, v, md.fh, md)>>}
                              ELSE {<<f.json, EncVal(s, f, v, h, md)>>})
           [] h /\ f.ann.flatten /\ f.kind = "message" ->
                IF ~p.has \/ ~HasMsg(s, v.type) THEN {}
-               ELSE {<<f.ann.prefix \o kv[1], kv[2]>> : kv \in Members(s, MsgByName(s, v.type), v, md.nh, md)}
+               ELSE {<<f.ann.prefix \o kv[1], kv[2]>> : kv \in Members(s, MsgByName(s, v.type), v, md.fh, md)}
           [] h /\ f.ann.nullable -> IF p.has THEN {<<f.json, EncVal(s, f, v, h, md)>>} ELSE {<<f.json, JNull>>}
           [] h /\ f.ann.empty \in {"NULL", "OMIT"} /\ p.has /\ v.t = "m" /\ v.empty ->
                IF f.ann.empty = "NULL" THEN {<<f.json, JNull>>} ELSE {}
           [] OTHER -> IF p.has THEN {<<f.json, EncVal(s, f, v, h, md)>>} ELSE {}
     : p \in Range(x.fs) }
 
-Contract == [nh |-> TRUE, nn |-> FALSE]
+Contract == [nh |-> TRUE, fh |-> TRUE, nn |-> FALSE]
 \* the JSON form of a top-level message value (the contract)
 Enc(s, x) == EncMsgVal(s, x, TRUE, Contract)
 \* the variants the code produces today (each tied to a known finding)
-EncVariant(s, x, nestedPlain, nilNull) == EncMsgVal(s, x, TRUE, [nh |-> ~nestedPlain, nn |-> nilNull])
+\* (fh: a message reached through a flatten field or as the variant of a discriminated oneof is written by
+\* the holder's codec, which calls the child's own codec - D_nested_codec_ignored does not reach those)
+EncVariant(s, x, nestedPlain, nilNull) == EncMsgVal(s, x, TRUE, [nh |-> ~nestedPlain, fh |-> TRUE, nn |-> nilNull])
 EncPlainNested(s, x) == EncVariant(s, x, TRUE, FALSE)
 
 (***************************************************************************)
